@@ -152,9 +152,12 @@ fn(VA, 'scatter_assign', trait='Array', self_ty='VecArray', status='P', props=['
    requires=['in_bounds(ixs@, old(self)@.len() as int)'],
    ensures=[('C07.scatter_assign-len', 'final(self)@.len() == old(self)@.len()'),
             # sequential semantics over the first min(|ixs|,|values|) pairs: the last write wins, the rest is untouched
-            ('C07.scatter_assign', 'lawful_clone::<T>() ==> ({ let m = if ixs@.len() <= values@.len() { ixs@.len() } else { values@.len() }; '
+            ('C07.scatter_assign', 'lawful_clone::<T>() && ixs@.len() <= values@.len() ==> '
              'forall|j: int| 0 <= j < old(self)@.len() ==> '
-             'final(self)@[j] == (if #[trigger] last_write(ixs@, j, m as int) >= 0 { values@[last_write(ixs@, j, m as int)] } else { old(self)@[j] }) })')],
+             'final(self)@[j] == (if #[trigger] last_write(ixs@, j, ixs@.len() as int) >= 0 { values@[last_write(ixs@, j, ixs@.len() as int)] } else { old(self)@[j] })'),
+            ('C07.scatter_assign-short', 'lawful_clone::<T>() && ixs@.len() > values@.len() ==> '
+             'forall|j: int| 0 <= j < old(self)@.len() ==> '
+             'final(self)@[j] == (if #[trigger] last_write(ixs@, j, values@.len() as int) >= 0 { values@[last_write(ixs@, j, values@.len() as int)] } else { old(self)@[j] })')],
    loops={1: {'iter': 'it', 'invariant': [
        'it.seq().len() == (if ixs@.len() <= values@.len() { ixs@.len() } else { values@.len() })',
        'forall|i: int| 0 <= i < it.seq().len() ==> *it.seq()[i].0 == ixs@[i] && *it.seq()[i].1 == values@[i]',
